@@ -160,6 +160,9 @@ type Exec struct {
 	assumes   map[string]bool
 	preempt   int // remaining pre-emption budget
 	hashSyms  map[string]*Term
+	wfShard   map[string]int
+	model     map[string]uint64 // last satisfying assignment of the path condition (nil: none)
+	modelOK   bool
 	errCodes  map[*Value]int
 	stubsHit  map[string]bool
 	funcsHit  map[*ssa.Function]bool
@@ -203,6 +206,49 @@ func (ex *Exec) addPC(t *Term) {
 		return
 	}
 	ex.pc = append(ex.pc, t)
+	if ex.modelOK {
+		if !ex.evalBool(t) {
+			ex.modelOK = false
+		}
+	}
+}
+
+// evalBool evaluates a Bool term under the cached model (unconstrained
+// variables default to zero, which is part of that model).
+func (ex *Exec) evalBool(t *Term) bool {
+	if ex.hasApp(t) {
+		ex.modelOK = false
+		return false
+	}
+	return eval(t, ex.model, map[int]uint64{}) == 1
+}
+
+func (ex *Exec) hasApp(t *Term) bool {
+	if t.op == OpApp {
+		return true
+	}
+	for _, a := range t.args {
+		if ex.hasApp(a) {
+			return true
+		}
+	}
+	return false
+}
+
+// refreshModel reads the values of all symbols after a sat answer (a scope
+// with the model must still be open).
+func (ex *Exec) refreshModel() {
+	var ts []*Term
+	for _, n := range ex.nondets {
+		ts = append(ts, n.T)
+	}
+	vals := ex.sol.Values(ex.tc, ts)
+	m := map[string]uint64{}
+	for _, n := range ex.nondets {
+		m[n.T.name] = vals[n.T.id]
+	}
+	ex.model = m
+	ex.modelOK = true
 }
 
 func (ex *Exec) flushPC() {
@@ -227,6 +273,26 @@ func (ex *Exec) check(extra *Term) SatResult {
 		extra = nil
 	}
 	r := ex.sol.Check(ex.tc, extra, false)
+	if r == Unknown {
+		ex.unknowns++
+	}
+	return r
+}
+
+// checkKeepModel is check() that also caches the model of a sat answer when
+// no model is cached (the model then satisfies pc and extra).
+func (ex *Exec) checkKeepModel(extra *Term) SatResult {
+	if ex.modelOK || extra == nil || extra.IsConst() {
+		return ex.check(extra)
+	}
+	ex.flushPC()
+	r := ex.sol.Check(ex.tc, extra, true)
+	if r == Sat {
+		ex.refreshModel()
+		// the model satisfies pc and extra; it stays valid for pc, and for the
+		// alternative only if that alternative is the one taken (addPC re-checks)
+	}
+	ex.sol.PopScope()
 	if r == Unknown {
 		ex.unknowns++
 	}
@@ -276,7 +342,11 @@ func (ex *Exec) decide(kind string, n int, conds []*Term, exhaustive bool) int {
 			feas = append(feas, i)
 			continue
 		}
-		r := ex.check(c)
+		if ex.modelOK && ex.evalBool(c) {
+			feas = append(feas, i) // the cached model is a witness
+			continue
+		}
+		r := ex.checkKeepModel(c)
 		if r != Unsat {
 			feas = append(feas, i)
 		}
